@@ -294,7 +294,22 @@ func nilCheckedAt(v ssa.Value, at *ssa.BasicBlock) bool {
 			}
 		}
 	}
-	// also: err extracted via type switch / errors.As patterns are not recognised
+	// errors.Is(v, target) / errors.As(v, &t) true edge: v is non-nil there
+	for _, ref := range *v.Referrers() {
+		call, ok := ref.(*ssa.Call)
+		if !ok {
+			continue
+		}
+		f := call.Common().StaticCallee()
+		if f == nil || (f.String() != "errors.Is" && f.String() != "errors.As") || len(call.Common().Args) == 0 || call.Common().Args[0] != v {
+			continue
+		}
+		for _, r2 := range *call.Referrers() {
+			if iff, ok := r2.(*ssa.If); ok && edgeDominates(iff.Block(), 0, at) {
+				return true
+			}
+		}
+	}
 	return false
 }
 
@@ -468,10 +483,10 @@ func (f *FuncFacts) classify(r0 *ssa.Return) (retKind, string) {
 		// an unchecked call result returned as is
 		switch x := v.(type) {
 		case *ssa.Call:
-			return retForward, "→" + f.c.calleeName(x.Common())
+			return retForward, "→" + f.c.term(x)
 		case *ssa.Extract:
 			if call, ok := x.Tuple.(*ssa.Call); ok {
-				return retForward, "→" + f.c.calleeName(call.Common())
+				return retForward, "→" + f.c.term(call)
 			}
 		}
 		return retMaybe, f.c.term(v)
@@ -486,7 +501,7 @@ func (f *FuncFacts) classify(r0 *ssa.Return) (retKind, string) {
 		}
 		switch x := v.(type) {
 		case *ssa.Call:
-			return retForward, "→" + f.c.calleeName(x.Common())
+			return retForward, "→" + f.c.term(x)
 		}
 		return retMaybe, f.c.term(v)
 	case rejNil:
@@ -695,6 +710,10 @@ func (f *FuncFacts) Accepts() []*Guard {
 		if ri.kind == retFail {
 			continue
 		}
+		if ex := f.phiExits(ri, rejEdge); ex != nil {
+			out = append(out, ex...)
+			continue
+		}
 		ctx := f.context(ri.blk, rejEdge)
 		var atoms []string
 		for _, c := range ctx {
@@ -724,6 +743,92 @@ func (f *FuncFacts) Accepts() []*Guard {
 			kind = "maybe " + ri.code
 		}
 		out = append(out, &Guard{Fn: funcName(f.fn), Atoms: atoms, Code: kind, Pos: f.retPos(ri), blk: ri.blk})
+	}
+	return out
+}
+
+// phiExits: a return whose (single non-error) result is a phi placed in the returning block — the
+// "result variable assigned in a switch, returned once" idiom — is expanded into one exit per
+// incoming edge, each with the conditions of its predecessor, so the selection is not lost.
+func (f *FuncFacts) phiExits(ri *retInfo, rejEdge map[[2]int]bool) []*Guard {
+	if ri.ins == nil || ri.kind != retAccept {
+		return nil
+	}
+	idx := -1
+	for i, v := range ri.ins.Results {
+		if f.mode == rejErr && i == len(ri.ins.Results)-1 {
+			continue
+		}
+		if ph, ok := unspill(v, ri.blk).(*ssa.Phi); ok && ph.Block() == ri.blk {
+			if idx >= 0 {
+				return nil // more than one phi result: keep the plain rendering
+			}
+			idx = i
+		}
+	}
+	if idx < 0 {
+		return nil
+	}
+	type leaf struct {
+		val  ssa.Value
+		pred *ssa.BasicBlock
+		succ *ssa.BasicBlock
+	}
+	var leaves []leaf
+	var expand func(ph *ssa.Phi, depth int) bool
+	expand = func(ph *ssa.Phi, depth int) bool {
+		for i, e := range ph.Edges {
+			pred := ph.Block().Preds[i]
+			if ph.Block().Dominates(pred) {
+				return false // loop-carried
+			}
+			if p2, ok := e.(*ssa.Phi); ok && depth < 3 && p2.Block() == pred {
+				if !expand(p2, depth+1) {
+					return false
+				}
+				continue
+			}
+			leaves = append(leaves, leaf{e, pred, ph.Block()})
+			if len(leaves) > 24 {
+				return false
+			}
+		}
+		return true
+	}
+	ph := unspill(ri.ins.Results[idx], ri.blk).(*ssa.Phi)
+	if !expand(ph, 0) || len(leaves) < 2 {
+		return nil
+	}
+	var out []*Guard
+	for _, lf := range leaves {
+		ctx := f.context(lf.pred, rejEdge)
+		var atoms []string
+		for _, c := range ctx {
+			atoms = append(atoms, c.atom)
+		}
+		if iff := f.ifOf(lf.pred); iff != nil && lf.pred.Succs[0] != lf.pred.Succs[1] {
+			for k, sc := range lf.pred.Succs {
+				if sc == lf.succ && !rejEdge[[2]int{lf.pred.Index, 1 - k}] && !f.isLoopExit(lf.pred, k) {
+					atoms = append(atoms, f.c.condAtom(iff.Cond, k == 0))
+				}
+			}
+		}
+		atoms = simplifyAtoms(atoms)
+		if len(atoms) == 0 {
+			atoms = []string{"always"}
+		}
+		var vals []string
+		for i, v := range ri.ins.Results {
+			if f.mode == rejErr && i == len(ri.ins.Results)-1 {
+				continue
+			}
+			if i == idx {
+				vals = append(vals, f.c.term(lf.val))
+			} else {
+				vals = append(vals, f.c.term(unspill(v, ri.blk)))
+			}
+		}
+		out = append(out, &Guard{Fn: funcName(f.fn), Atoms: atoms, Code: "accept <- (" + strings.Join(vals, ", ") + ")", Pos: f.blockPos(lf.pred), blk: lf.pred})
 	}
 	return out
 }
